@@ -162,6 +162,20 @@ CHECKS = {
              "scipy's multivariate_normal.rvs supplies Z; np.linspace's float front end and np.round (n_affected) are oracles recomputed with the library's expressions and checked "
              "against positions_ok. Calls without any anomaly are outside the domain (p is derived from the first mean).",
         ref="DESIGN.md section 4 / C18"),
+    "C10": dict(
+        technique="Coq proof (state-machine model of the object heap; non-interference, fresh-object equivalence, update = fit on combined data, by induction over ALL histories) + random-history correspondence with a Coq-validated twin",
+        text="Theorems in coq/Properties/C10.v about Model/Objects.v (scorer objects refitted in place by every predict and shared between detectors, fitted attributes, remembered "
+             "training data, stored scores, sktime reset/clone/set_params), for histories of ANY length: an observation reads only the current hyper-parameters, the nested scorers' "
+             "hyper-parameters, the fit record and the argument; a fitted detector's record was computed from its CURRENT hyper-parameters; no benign operation (earlier predict / "
+             "transform / evaluate on any data, fits of scorers, any operation on other detectors sharing its scorers, construction, cloning) changes a later observation, also for "
+             "whole sequences; the observation equals that of a freshly constructed detector fitted the same way (hypothesis: no nested hyper-parameter changed behind its back; the "
+             "violation of that hypothesis is exhibited as a theorem and recorded as finding D20); update is fit on the combined data; set_params un-fits; clone is an unfitted copy "
+             "leaving the original untouched; hyper-parameters change only through set_params. Tie: random histories on the real objects (detectors sharing cost objects, datasets of "
+             "different n and p): every output must equal that of a fresh object built from the model's dependency tuple, NotFittedError exactly where the model says, final fitted "
+             "flags / hyper-parameters equal, caller data untouched; the Python twin that supplies the tuples is replayed and compared with the proved model inside Coq on every history.",
+        note=BASE_TB + "Thin model: the proof carries the state discipline; that the real objects obey it is established by the history correspondence. 'Last fit' of a shared scorer = "
+             "last fit applied to that object by anyone. Composite scorers held by the user (ChangeScore(cost) shared as objects) are outside the model. No axioms.",
+        ref="DESIGN.md section 4 / C10"),
     "C11": dict(
         technique="Coq (container-blind model, theorems immediate by construction) + exhaustive categorical correspondence against the reference representation",
         text="Model/Containers.v normalises every input (container kind, dtype, index kind, column labels, values) to its values before any algorithm runs; the theorems of "
